@@ -135,6 +135,22 @@ type Wagon struct {
 	TrailLast
 }
 
+// Holder is a nested value struct holding a pointer to a struct.
+type Holder struct {
+	HdTag   string
+	HdInner *NestC
+}
+
+// Node is a slice element with a pointer-to-struct member and a nested value
+// struct holding another one: one sub-transformer per member serves every
+// element of the slice, each element holding different values.
+type Node struct {
+	NdNum  int
+	NdPeer *NestA
+	NdHold Holder
+	NdMore *NestB
+}
+
 var _ = []any{EmbHidden{}.front, EmbHidden{}.mid, EmbHidden{}.back, TrailFirst{}.lead, TrailMid{}.mid, TrailLast{}.tail}
 
 func init() {
@@ -143,6 +159,7 @@ func init() {
 	shape.RegisterBase("EmbMulti", reflect.TypeOf(EmbMulti{}))
 	shape.RegisterBase("EmbPair", reflect.TypeOf(EmbPair{}))
 	shape.RegisterBase("EmbHidden", reflect.TypeOf(EmbHidden{}))
+	shape.RegisterBase("Node", reflect.TypeOf(Node{}))
 	shape.RegisterBase("Cart", reflect.TypeOf(Cart{}))
 	shape.RegisterBase("Wagon", reflect.TypeOf(Wagon{}))
 	shape.RegisterBase("Job", reflect.TypeOf(Job{}))
@@ -178,6 +195,7 @@ var staticWords = map[string][]string{
 	"TrailFirst": {"trail", "first"}, "TrailMid": {"trail", "mid"}, "TrailLast": {"trail", "last"}, "TrailDeep": {"trail", "deep"},
 	"TfOnly": {"tf", "only"}, "TmOne": {"tm", "one"}, "TmTwo": {"tm", "two"}, "TlNum": {"tl", "num"}, "TlText": {"tl", "text"},
 	"TdAlpha": {"td", "alpha"}, "TdGamma": {"td", "gamma"}, "Qty": {"qty"}, "Load": {"load"},
+	"NdNum": {"nd", "num"}, "NdPeer": {"nd", "peer"}, "NdHold": {"nd", "hold"}, "NdMore": {"nd", "more"}, "HdTag": {"hd", "tag"}, "HdInner": {"hd", "inner"},
 	"X": {"x"}, "Y": {"y"}, "Vals": {"vals"}, "M": {"m"}, "P": {"p"},
 }
 
